@@ -320,3 +320,36 @@ Proof.
   intros W ND F. unfold xmatch. destruct (build_ok ct root W ND) as (t & -> & T).
   destruct (foreign_keyerror ct root t T x [] false x false F) as (-> & _). reflexivity.
 Qed.
+
+Theorem match_eq_G ct es ps : es <> [] -> M ct (rev es) (rev ps) = G ct es ps.
+Proof. intro Hn. apply eq_true_iff_eq. rewrite M_R', G_R. symmetry. now apply R_R'. Qed.
+
+Theorem find_first ct root els : find ct root els = option_map (@hd_error node) (findall ct root els).
+Proof. reflexivity. Qed.
+
+(* a well-formed xpath always compiles to a non-empty element list *)
+Lemma tx_nonempty rargs : forall acc, acc <> [] -> exists els, tx rargs acc = Some els /\ els <> [].
+Proof.
+  induction rargs as [|[[pf pi] [c|]] rest IH]; intros acc Hn; simpl.
+  - eauto.
+  - apply IH. discriminate.
+  - destruct acc as [|e r]; [congruence|]. simpl. apply IH. discriminate.
+Qed.
+Theorem to_elements_ok x : well_formed x = true -> exists els, to_elements x = Some els /\ els <> [].
+Proof.
+  unfold well_formed, to_elements. intros H.
+  rewrite map_app, rev_app_distr. rewrite <- map_rev.
+  destruct (rev (xp_steps x)) as [|s r]; [discriminate|]. destruct (st_class s) as [c|] eqn:Ec; [|discriminate].
+  simpl. unfold tr_element at 1. rewrite Ec.
+  destruct (st_field s), (st_index s); simpl; apply tx_nonempty; discriminate.
+Qed.
+
+Lemma c07_inhabited :
+  wf_node ex_ct ex_root = true /\ nodup_tree ex_root /\
+  R ex_ct [ {| e_cls := lit "P"; e_field := None; e_index := None; e_any := true |};
+            {| e_cls := lit "L"; e_field := Some (lit "items"); e_index := Some 2; e_any := false |} ]
+       (chain ex_root [ {| ti_node := ex_leaf 6 "L"; ti_parent := ex_root; ti_field := lit "items"; ti_index := Some 2 |} ]).
+Proof.
+  destruct premises_inhabited as (W & ND & _). repeat split; auto.
+  apply R_step; [vm_compute; reflexivity|]. apply R_step; [vm_compute; reflexivity|]. constructor.
+Qed.
